@@ -7,12 +7,16 @@ Require Import Mixin.Base.Res Mixin.Model.Topology.
 Import ListNotations.
 Local Open Scope N_scope.
 
+(* a listed entry: position and snapshot (index of its payload hash) *)
+Inductive ent := E (pos hash : N).
+
 Inductive topx :=
 | XWriteAt (pos hash : N) (obs : N)             (* WriteSnapshot at a chosen position: 0 ok, 1 error, 2 panic *)
 | XInit (obs : res N)                           (* new node: counter read from LastSnapshot *)
 | XSetSeq (v : N)                               (* overwrite the in-memory counter *)
 | XTopoWrite (hash : N) (obs : res N)           (* TopoWrite: the position it assigned *)
-| XList (offset count : N) (obs : res (list (N * N)))
+| XList (offset count : N) (obs : res (list ent))   (* storage ReadSnapshots[WithTransactions]SinceTopology, and the
+                                                        kernel's Node.ReadSnapshotsSinceTopology, which forwards to it *)
 | XLookup (hash : N) (obs : res (option (N * N)))
 | XLast (obs : res (N * N)).
 
@@ -21,6 +25,20 @@ Inductive case :=
         (ops : list topx).
 
 Definition pair_eqb (a b : N * N) : bool := (fst a =? fst b) && (snd a =? snd b).
+Definition ent_eqb (a : N * N) (b : ent) : bool := let '(E p h) := b in (fst a =? p) && (snd a =? h).
+Fixpoint list_eqb2 {A B} (f : A -> B -> bool) (a : list A) (b : list B) : bool :=
+  match a, b with
+  | [], [] => true
+  | x :: a', y :: b' => f x y && list_eqb2 f a' b'
+  | _, _ => false
+  end.
+Definition res_eqb2 {A B} (f : A -> B -> bool) (a : res A) (b : res B) : bool :=
+  match a, b with
+  | Ok x, Ok y => f x y
+  | Err, Err => true
+  | Panic, Panic => true
+  | _, _ => false
+  end.
 Fixpoint list_eqb {A} (f : A -> A -> bool) (a b : list A) : bool :=
   match a, b with
   | [], [] => true
@@ -58,7 +76,7 @@ Fixpoint replay (s : tstore) (seq : N) (ops : list topx) : bool :=
       | XTopoWrite h obs =>
           let '(n, r) := topo_write (mk_tnode seq s) h in
           res_eqb N.eqb r obs && replay (tn_store n) (tn_seq n) ops'
-      | XList off cnt obs => res_eqb (list_eqb pair_eqb) (list_since s off cnt) obs && replay s seq ops'
+      | XList off cnt obs => res_eqb2 (list_eqb2 ent_eqb) (list_since s off cnt) obs && replay s seq ops'
       | XLookup h obs => res_eqb (opt_eqb pair_eqb) (lookup s h) obs && replay s seq ops'
       | XLast obs => res_eqb pair_eqb (last_snapshot s) obs && replay s seq ops'
       end
